@@ -1,6 +1,15 @@
 package main
 
+// Loops with invariants: the loop is cut at its header. On entry the
+// invariant is an obligation (init); the header's phis and everything the
+// body may write are havocked and the invariant is assumed; a path that comes
+// back to the header proves the invariant again (preserved) and ends.
+
 import (
+	"fmt"
+	"go/types"
+	"strings"
+
 	"golang.org/x/tools/go/ssa"
 )
 
@@ -12,19 +21,235 @@ type LoopContract struct {
 
 type LoopObligation struct {
 	Name string
-	Kind string // "init" | "preserved"
+	Kind string // "loop_init" | "loop_preserved"
 	St   *State
 	Goal *Term
 }
 
 func (ex *Executor) loopContractFor(fr *frame, b *ssa.BasicBlock) *LoopContract {
-	if fr.fn != ex.Root || ex.LoopInv == nil {
+	if fr.fn != ex.Root || ex.LoopInv == nil || fr.parent != nil {
 		return nil
 	}
 	return ex.LoopInv[b]
 }
 
-func (ex *Executor) jumpLoopHeader(st *State, fr *frame, from, b *ssa.BasicBlock, lc *LoopContract) bool {
-	return false
+// loopBlocks returns the natural loop of header h (blocks dominated by h that
+// can reach a back-edge source).
+func loopBlocks(h *ssa.BasicBlock) map[*ssa.BasicBlock]bool {
+	in := map[*ssa.BasicBlock]bool{h: true}
+	var work []*ssa.BasicBlock
+	for _, p := range h.Preds {
+		if h.Dominates(p) {
+			work = append(work, p)
+		}
+	}
+	for len(work) > 0 {
+		b := work[len(work)-1]
+		work = work[:len(work)-1]
+		if in[b] {
+			continue
+		}
+		in[b] = true
+		for _, p := range b.Preds {
+			if !in[p] {
+				work = append(work, p)
+			}
+		}
+	}
+	return in
 }
 
+func (ex *Executor) loopVars(st *State, fr *frame, b *ssa.BasicBlock) map[string]cval {
+	vars := map[string]cval{}
+	for k, v := range fr.names {
+		vars[k] = v
+	}
+	for _, ins := range b.Instrs {
+		phi, ok := ins.(*ssa.Phi)
+		if !ok {
+			break
+		}
+		if phi.Comment != "" {
+			vars[phi.Comment] = cval{V: fr.regs[phi], T: phi.Type()}
+		}
+	}
+	return vars
+}
+
+func (ex *Executor) evalInvariants(st *State, fr *frame, b *ssa.BasicBlock, lc *LoopContract, kind string) {
+	vars := ex.loopVars(st, fr, b)
+	for _, c := range lc.Invs {
+		env := ex.loopEnv(st)
+		for k, v := range vars {
+			env.vars[k] = v
+		}
+		snap := st.Clone()
+		env.scratch = snap
+		goal, err := env.EvalBool(c.Expr)
+		name := fmt.Sprintf("loop#%d/%s/%s", lc.Ordinal, c.Label, strings.TrimPrefix(kind, "loop_"))
+		if err != nil {
+			ex.LoopErrors = append(ex.LoopErrors, fmt.Sprintf("%s: %v", name, err))
+			continue
+		}
+		ex.LoopObls = append(ex.LoopObls, &LoopObligation{Name: name, Kind: kind, St: snap, Goal: goal})
+	}
+}
+
+func (ex *Executor) assumeInvariants(st *State, fr *frame, b *ssa.BasicBlock, lc *LoopContract) {
+	vars := ex.loopVars(st, fr, b)
+	for _, c := range lc.Invs {
+		env := ex.loopEnv(st)
+		for k, v := range vars {
+			env.vars[k] = v
+		}
+		env.scratch = st
+		t, err := env.EvalBool(c.Expr)
+		if err != nil {
+			ex.LoopErrors = append(ex.LoopErrors, fmt.Sprintf("loop#%d/%s (assume): %v", lc.Ordinal, c.Label, err))
+			continue
+		}
+		st.Assume(t)
+	}
+}
+
+func (ex *Executor) jumpLoopHeader(st *State, fr *frame, from, b *ssa.BasicBlock, lc *LoopContract) bool {
+	if fr.inLoop[b] {
+		// back edge: prove the invariant for the next iteration and stop
+		ex.enterBlock(st, fr, from, b)
+		ex.evalInvariants(st, fr, b, lc, "loop_preserved")
+		return false
+	}
+	// entry from outside
+	ex.enterBlock(st, fr, from, b)
+	ex.evalInvariants(st, fr, b, lc, "loop_init")
+	ex.havocLoop(st, fr, b)
+	fr.inLoop[b] = true
+	ex.assumeInvariants(st, fr, b, lc)
+	return !st.Infeasible()
+}
+
+// havocLoop forgets everything the loop body may change.
+func (ex *Executor) havocLoop(st *State, fr *frame, h *ssa.BasicBlock) {
+	blocks := loopBlocks(h)
+	for _, ins := range h.Instrs {
+		phi, ok := ins.(*ssa.Phi)
+		if !ok {
+			break
+		}
+		old := fr.regs[phi]
+		nv := ex.havocLike(st, old, phi.Type(), "loop."+phi.Comment)
+		fr.regs[phi] = nv
+		if phi.Comment != "" && fr.names != nil {
+			fr.names[phi.Comment] = cval{V: nv, T: phi.Type()}
+		}
+	}
+	callsInRepo := false
+	for b := range blocks {
+		for _, ins := range b.Instrs {
+			switch x := ins.(type) {
+			case *ssa.Store:
+				if p, ok := ex.get(st, fr, x.Addr).(*PtrV); ok {
+					if _, isAlloc := x.Addr.(*ssa.Alloc); isAlloc || true {
+						old := st.Cells[p.Cell]
+						if old != nil {
+							st.Cells[p.Cell] = ex.havocLike(st, old, nil, fmt.Sprintf("loop.cell%d", p.Cell))
+						}
+					}
+				} else {
+					st.Note("loop body stores through %s (not havocked precisely)", x.Addr.Name())
+				}
+			case *ssa.MapUpdate:
+				if mv, ok := ex.get(st, fr, x.Map).(*MapV); ok {
+					if md, ok := st.Cells[mv.Cell].(*MapData); ok {
+						// an arbitrary map with the same type: opaque base
+						st.Cells[mv.Cell] = &MapData{Base: ex.Fresh("loop.map", SInt), T: md.T}
+					}
+				}
+			case ssa.CallInstruction:
+				c := x.Common()
+				if c.IsInvoke() {
+					if strings.HasPrefix(c.Method.Name(), "Put") && isUserIface(c.Value.Type()) {
+						f := c.Method.Name()[3:]
+						if s, ok := ex.Prog.userFieldSort(f); ok {
+							st.UHeap[f] = ex.Fresh("uh!loop!"+f, SArr(SInt, s))
+						}
+					}
+					continue
+				}
+				if fn, ok := c.Value.(*ssa.Function); ok && ex.Prog.inRepo(fn) {
+					callsInRepo = true
+				}
+				if b, ok := c.Value.(*ssa.Builtin); ok && (b.Name() == "append" || b.Name() == "delete" || b.Name() == "copy") {
+					// appends produce new values (phis); delete/copy mutate
+					if b.Name() != "append" {
+						st.Note("loop body uses builtin %s", b.Name())
+					}
+				}
+			}
+		}
+	}
+	if callsInRepo {
+		// conservative: in-repo callees may update user records
+		for f := range st.UHeap {
+			if s, ok := ex.Prog.userFieldSort(f); ok {
+				st.UHeap[f] = ex.Fresh("uh!loop!"+f, SArr(SInt, s))
+			}
+		}
+	}
+}
+
+// havocLike produces an unconstrained value with the same representation as old.
+func (ex *Executor) havocLike(st *State, old Value, t types.Type, hint string) Value {
+	switch x := old.(type) {
+	case *Term:
+		return ex.Fresh(hint, x.S)
+	case *TimeV:
+		return &TimeV{T: ex.Fresh(hint, SInt)}
+	case *BytesV:
+		return &BytesV{T: ex.Fresh(hint, SStr)}
+	case *StructV:
+		n := &StructV{T: x.T}
+		for i, f := range x.F {
+			n.F = append(n.F, ex.havocLike(st, f, nil, fmt.Sprintf("%s.%d", hint, i)))
+		}
+		return n
+	case *TupleV:
+		n := &TupleV{}
+		for i, f := range x.V {
+			n.V = append(n.V, ex.havocLike(st, f, nil, fmt.Sprintf("%s.%d", hint, i)))
+		}
+		return n
+	case *SymSliceV:
+		arr := ex.Fresh(hint+".arr", ex.symArr(st, x).S)
+		ln := ex.Fresh(hint+".len", SInt)
+		st.Fact(Ge(ln, IntLit(0)))
+		return ex.newSymSlice(st, arr, ln, x.ElemT)
+	case *SliceV:
+		// a concrete slice that changes in the loop: unknown length
+		if t != nil {
+			if sl, ok := t.Underlying().(*types.Slice); ok {
+				if es, ok := scalarSort(sl.Elem()); ok {
+					arr := ex.Fresh(hint+".arr", SArr(SInt, es))
+					ln := ex.Fresh(hint+".len", SInt)
+					st.Fact(Ge(ln, IntLit(0)))
+					return ex.newSymSlice(st, arr, ln, sl.Elem())
+				}
+			}
+		}
+	case *ArrayV:
+		n := &ArrayV{}
+		for i, f := range x.E {
+			n.E = append(n.E, ex.havocLike(st, f, nil, fmt.Sprintf("%s.%d", hint, i)))
+		}
+		return n
+	case *IfaceV:
+		return ex.Fresh(hint, SInt)
+	case *MapData:
+		return &MapData{Base: ex.Fresh(hint, SInt), T: x.T}
+	}
+	if t != nil {
+		return ex.havoc(st, t, hint)
+	}
+	st.Note("cannot havoc %s precisely", showValue(old))
+	return old
+}
